@@ -12,6 +12,7 @@ import (
 	"os"
 	"os/exec"
 	"strings"
+	"sync"
 	"syscall"
 	"time"
 
@@ -60,6 +61,47 @@ func Child(args []string) {
 			r.ReadString('\n')
 			close(stop)
 		}()
+		if len(args) > 5 && args[5] == "load" {
+			// clean stop under load: Close runs while another goroutine is still storing; a Store that returns nil
+			// counts as acknowledged whenever it returns
+			var mu sync.Mutex
+			say := func(format string, a ...any) {
+				mu.Lock()
+				fmt.Fprintf(out, format, a...)
+				out.Flush()
+				mu.Unlock()
+			}
+			finished := make(chan struct{})
+			go func() {
+				defer close(finished)
+				for i := from; i < from+count; i++ {
+					ch := chanOf(i)
+					payload := make([]byte, []int{10, 200, 5000}[rng.Intn(3)])
+					rng.Read(payload)
+					m := message.New(ssidOf(i), []byte(ch), payload)
+					m.TTL = uint32(100000 + rng.Intn(1000))
+					say("begin %d %s %s %s %d\n", i, hex.EncodeToString(m.ID), ch, hashOf(payload), m.TTL)
+					if err := s.Store(m); err != nil {
+						say("storefail %d %v\n", i, err)
+						select {
+						case <-stop:
+							return // the store is closing: give up
+						default:
+						}
+						continue
+					}
+					say("ack %d\n", i)
+				}
+			}()
+			<-stop
+			s.Close()
+			select {
+			case <-finished:
+			case <-time.After(10 * time.Second): // a Store stuck inside the closing database never returned: not acknowledged
+			}
+			say("closed\n")
+			return
+		}
 		for i := from; i < from+count; i++ {
 			select {
 			case <-stop:
@@ -116,7 +158,13 @@ type rec struct {
 // cycle runs one store-and-end cycle followed by a reopen in a fresh process; events are appended to the trace.
 func cycle(tr *core.Trace, dir string, seed int64, from, count int, how string, rng *rand.Rand, known map[string]rec) error {
 	self, _ := os.Executable()
-	cmd := exec.Command(self, "_storechild", "store", dir, fmt.Sprint(seed), fmt.Sprint(from), fmt.Sprint(count))
+	argv := []string{"_storechild", "store", dir, fmt.Sprint(seed), fmt.Sprint(from), fmt.Sprint(count)}
+	stopAfterAcks := count
+	if how == "stop-load" {
+		argv = append(argv, "load")
+		stopAfterAcks = 1 + rng.Intn(count/2+1)
+	}
+	cmd := exec.Command(self, argv...)
 	stdin, _ := cmd.StdinPipe()
 	stdout, _ := cmd.StdoutPipe()
 	if err := cmd.Start(); err != nil {
@@ -176,7 +224,7 @@ func cycle(tr *core.Trace, dir string, seed int64, from, count int, how string, 
 			if how == "kill-after-ack" && acks == killAfterAcks {
 				cmd.Process.Signal(syscall.SIGKILL)
 			}
-			if how == "stop" && acks == count {
+			if (how == "stop" || how == "stop-load") && acks == stopAfterAcks {
 				fmt.Fprintln(stdin, "stop")
 			}
 		case "closed":
@@ -187,8 +235,8 @@ func cycle(tr *core.Trace, dir string, seed int64, from, count int, how string, 
 	}
 	close(done)
 	cmd.Wait()
-	if how == "stop" {
-		tr.Events = append(tr.Events, core.Ev(map[string]any{"e": "stop"}))
+	if how == "stop" || how == "stop-load" {
+		tr.Events = append(tr.Events, core.Ev(map[string]any{"e": "stop", "how": how}))
 	} else {
 		tr.Events = append(tr.Events, core.Ev(map[string]any{"e": "crash", "how": how}))
 	}
@@ -230,7 +278,7 @@ func Run(c *core.Ctx) {
 	if !c.Quick() {
 		chains, cycles, per = 60, 4, 25
 	}
-	hows := []string{"kill-after-ack", "kill-in-store", "kill-timed", "stop", "kill-in-store", "kill-after-ack"}
+	hows := []string{"kill-after-ack", "kill-in-store", "stop-load", "kill-timed", "stop", "kill-in-store", "kill-after-ack", "stop-load"}
 	var traces []*core.Trace
 	var nontrivial, kills int64
 	for ch := 0; ch < chains; ch++ {
@@ -247,7 +295,7 @@ func Run(c *core.Ctx) {
 				os.RemoveAll(dir)
 				core.Fatalf("child process: %v", err)
 			}
-			if how != "stop" {
+			if how != "stop" && how != "stop-load" {
 				kills++
 			}
 		}
@@ -278,7 +326,7 @@ func Run(c *core.Ctx) {
 	rej := c.ValidateTraces(traces, core.ValidateOpts{Module: "Durable_Trace", Cfg: "CONSTANTS\n Msgs = " + msgs + "\nINIT TraceInit\nNEXT TraceNext\nCONSTRAINT MarkC\nINVARIANT TraceInv\nPOSTCONDITION AllConsumed\nCHECK_DEADLOCK FALSE\n", ChunkSize: 100000})
 	c.ReportRejections(rej, "after a kill / stop and a restart on the same directory the store lost an acknowledged message, showed one that was never stored or changed one, or did not reopen")
 	c.Set("distinct_nontrivial", nontrivial)
-	c.Set("rule", "each chain = 3-4 cycles on one directory; a cycle = a child process storing 12-25 random messages (one channel per message, payloads 10 B..60 KB) into the real storage.SSD, announcing begin/ack on a pipe, ended by SIGKILL right after a seeded acknowledgement, SIGKILL a few hundred microseconds after a seeded begin (inside the Store call), SIGKILL at a seeded instant, or a clean Close; then a fresh process reopens the directory and lists every message; chains are distinct by seed; every chain has at least two kills")
+	c.Set("rule", "each chain = 3-4 cycles on one directory; a cycle = a child process storing 12-25 random messages (one channel per message, payloads 10 B..60 KB) into the real storage.SSD, announcing begin/ack on a pipe, ended by SIGKILL right after a seeded acknowledgement, SIGKILL a few hundred microseconds after a seeded begin (inside the Store call), SIGKILL at a seeded instant, a clean Close, or a clean Close issued while another goroutine is still storing (every Store that returns nil counts as acknowledged); then a fresh process reopens the directory and lists every message; chains are distinct by seed; every chain has at least two kills")
 	c.Assume = append(c.Assume, "a process kill, not a power loss (badger runs with SyncWrites=false; the page cache survives)", "crash instants are sampled, not enumerated")
 	c.Finish()
 }
